@@ -40,4 +40,12 @@ def run(S):
         "pretty 0.12's layout algorithm as re-implemented in units/reparse.py (validated natively per counterexample and on the whole corpus)",
         'lexer facts about whitespace tokens: markup knows blank, tab and the newline characters; code and math every White_Space scalar',
     ]
+    # generated families (construct x spelling x context x comment position, ~4000 well-formed documents): a sample that depends on VERIF_SEED in the
+    # quick tier, all of them in the thorough tier
+    from . import reparse as _rpf
+    _fam = _rpf.families(S, seed=S.seed, limit=300 if S.tier == 'quick' else None)
+    if 'C02' == 'C09':
+        _fam = [d_ for d_ in _fam if '$' in d_]
+    _ff, _covf = _rpf.explore(S, _fam, tabs=(2,), widths=(0, 1 << 30) if S.tier == 'quick' else (0, 20, 40, 80, 1 << 30), prop='C02')
+    _rpf.report(S, 'C02', _ff)
     return S.finish(level='other', explanation=EXPLANATION, trusted=['mirsym encoder', 'std / typst-syntax / pretty contracts', 'interpreted renderer', 'the real parser (native driver)'])
